@@ -105,6 +105,11 @@ static void handler(const Line& t, Out& o) {
     regs[(long)t.at(2)] = std::move(p);
     o.R(1); break; }
   case 13: { getu(t.at(1)).reset(); o.R(1); break; }
+  case 14: { // union dump (everything here is visible in var_opt_union::serialize)
+    vu_t& u = getu(t.at(1));
+    o.R((I)u.n_); o.R(vh::dbits(u.outer_tau_numer_)); o.R((I)u.outer_tau_denom_); o.R((I)u.max_k_);
+    o.R((I)u.gadget_.num_marks_in_h_);
+    dump(u.gadget_, o); break; }
   default: o.R(-2);
   }
 }
